@@ -1,6 +1,1556 @@
-//! C16 — not built yet.
-use crate::report::{Ctx, Reporter};
+//! C16 — static file serving stays inside its root and answers Range / conditional requests exactly.
+//!
+//! Obs: `actix_files::Files` mounted five times (default/async reads, hidden files + sync reads,
+//! index file, directory listing, root mount) in a real `App`, driven through the `Service`
+//! interface on a temp tree created per shard.  Every file's content is a unique id pattern
+//! (16-byte records `iiii:oooooooooo\n`), so any body identifies the file and offset it came from;
+//! canary files, a sibling directory `rootx/` (sharing the root's name prefix) and same-named
+//! decoys sit OUTSIDE the root.  The whole body is streamed chunk by chunk.
+//!
+//! Oracles (one `judge` for every phase, driven only by the request path + headers):
+//!  * escape: a 200/206 body must be bytes of an in-root file; never of an outside file;
+//!  * resolve: an independent re-statement of the path rules (DESIGN A.3) says which in-root file /
+//!    directory / rejection the path denotes; anything that is not a file must get an error status;
+//!  * range: `refmodel::range::eval_range` (RFC 7233) × file length ⇒ outcome set; a 206 must carry a
+//!    well-formed `Content-Range: bytes s-e/len` with s ≤ e < len, body == file[s..=e], declared
+//!    body size == e−s+1 == streamed bytes; a 416 `bytes */len` and an empty body;
+//!  * cond: `refmodel::range::eval_cond` (RFC 7232 §6) ⇒ 412 / 304 (empty body) / the normal answer;
+//!  * never a panic, never a body stream error.
 
-pub fn run(_ctx: &Ctx, rep: &mut Reporter) {
-    rep.inconclusive("C16 monitor not built");
+use std::{
+    collections::{BTreeMap, BTreeSet},
+    future::Future,
+    path::PathBuf,
+    pin::Pin,
+    sync::{
+        atomic::{AtomicBool, AtomicU64, Ordering::SeqCst},
+        Arc,
+    },
+    task::{Context, Poll},
+    time::{Duration, Instant, UNIX_EPOCH},
+};
+
+use actix_files::Files;
+use actix_http::Request;
+use actix_web::{
+    body::{BodySize, BoxBody, MessageBody},
+    dev::{Service, ServiceResponse},
+    http::{
+        header::{HeaderName, HeaderValue},
+        Uri,
+    },
+    test, App,
+};
+use serde_json::{json, Value};
+
+use crate::{
+    refmodel::range::{
+        eval_cond, eval_range, fmt_http_date, parse_content_range, parse_http_date, range_allows, CondHeaders,
+        ContentRange, DateFmt, ETag, Kind, RangeAnswer, Validators,
+    },
+    report::{guard, panic_site, Ctx, Reporter},
+    util::{esc_short, fnv, Rng},
+    world::exec::run_virtual,
+};
+
+// ------------------------------------------------------------------------------------------------
+// The tree
+// ------------------------------------------------------------------------------------------------
+
+/// mtime given to every file: whole seconds + 0.5 s (HTTP dates only carry the seconds)
+const MTIME: i64 = 1_700_000_000;
+const ETAG: &str = "{ETAG}";
+
+struct FileEnt {
+    /// components relative to the root (inside) or to the base (outside)
+    rel: Vec<String>,
+    id: u16,
+    content: Vec<u8>,
+    inside: bool,
+}
+
+struct Tree {
+    base: PathBuf,
+    root: PathBuf,
+    files: Vec<FileEnt>,
+    /// in-root directories, as component lists (the root itself is the empty list)
+    dirs: BTreeSet<Vec<String>>,
+}
+
+fn content(id: u16, len: usize) -> Vec<u8> {
+    let mut v = Vec::with_capacity(len + 16);
+    let mut rec = 0u64;
+    while v.len() < len {
+        v.extend_from_slice(format!("{:04x}:{:010x}\n", id, rec).as_bytes());
+        rec += 1;
+    }
+    v.truncate(len);
+    v
+}
+
+/// (path, id, len) of the files inside the root
+const INSIDE: &[(&str, u16, usize)] = &[
+    ("a.txt", 0x0a01, 10),
+    ("empty.bin", 0x0a02, 0),
+    ("one.bin", 0x0a03, 1),
+    ("k64.bin", 0x0a04, 65_536),
+    ("k64p1.bin", 0x0a05, 65_537),
+    ("big.bin", 0x0a06, 200_000),
+    (".hidden", 0x0a07, 40),
+    (".hid/x.txt", 0x0a08, 40),
+    ("sub/b.txt", 0x0a09, 40),
+    ("sub/index.html", 0x0a0a, 40),
+    ("sub/deep/c.txt", 0x0a0b, 40),
+    ("sub/deep/deeper/d.txt", 0x0a0c, 40),
+    ("\u{fc}n\u{ef}/\u{e9}.txt", 0x0a0d, 40),
+    ("x\\y.txt", 0x0a0e, 40),
+    ("sp ace.txt", 0x0a0f, 40),
+    ("sub/deep/index.html.bak", 0x0a10, 40),
+];
+
+/// decoys and canaries outside the root (relative to the base directory that contains `root/`)
+const OUTSIDE: &[(&str, u16, usize)] = &[
+    ("CANARY.txt", 0xc001, 40),
+    ("rootx/CANARY.txt", 0xc002, 40),
+    ("rootx/a.txt", 0xc003, 10),
+    ("sub/b.txt", 0xc004, 40),
+    ("a.txt", 0xc005, 10),
+    ("index.html", 0xc006, 40),
+    (".hidden", 0xc007, 40),
+    ("rootx/sub/b.txt", 0xc008, 40),
+];
+
+impl Tree {
+    fn create(ctx: &Ctx) -> std::io::Result<Tree> {
+        let parent = match std::env::current_dir() {
+            Ok(d) if d.join("target").is_dir() => d.join("target").join("c16-tmp"),
+            _ => std::env::temp_dir().join("avmon-c16-tmp"),
+        };
+        std::fs::create_dir_all(&parent)?;
+        // leftovers of killed runs (older than two hours) are removed
+        if let Ok(rd) = std::fs::read_dir(&parent) {
+            for e in rd.flatten() {
+                let old = e
+                    .metadata()
+                    .and_then(|m| m.modified())
+                    .ok()
+                    .and_then(|t| t.elapsed().ok())
+                    .map(|d| d > Duration::from_secs(7200))
+                    .unwrap_or(false);
+                if old && e.file_name().to_string_lossy().starts_with("avmon-c16-") {
+                    let _ = std::fs::remove_dir_all(e.path());
+                }
+            }
+        }
+        let base = parent.join(format!("avmon-c16-{}-{}-{}", std::process::id(), ctx.shard, ctx.layer));
+        let _ = std::fs::remove_dir_all(&base);
+        let root = base.join("root");
+        std::fs::create_dir_all(&root)?;
+        let mut files = vec![];
+        let mut dirs = BTreeSet::new();
+        dirs.insert(vec![]);
+        let mtime = UNIX_EPOCH + Duration::from_millis(MTIME as u64 * 1000 + 500);
+        for (inside, list) in [(true, INSIDE), (false, OUTSIDE)] {
+            for &(p, id, len) in list {
+                let rel: Vec<String> = p.split('/').map(|s| s.to_string()).collect();
+                let top = if inside { &root } else { &base };
+                let mut full = top.clone();
+                for (i, c) in rel.iter().enumerate() {
+                    full.push(c);
+                    if i + 1 < rel.len() && inside {
+                        dirs.insert(rel[..=i].to_vec());
+                    }
+                }
+                std::fs::create_dir_all(full.parent().unwrap())?;
+                let data = content(id, len);
+                std::fs::write(&full, &data)?;
+                let f = std::fs::OpenOptions::new().write(true).open(&full)?;
+                f.set_modified(mtime)?;
+                files.push(FileEnt { rel, id, content: data, inside });
+            }
+        }
+        // an empty directory inside the root
+        std::fs::create_dir_all(root.join("emptydir"))?;
+        dirs.insert(vec!["emptydir".to_string()]);
+        let base = base.canonicalize()?;
+        let root = root.canonicalize()?;
+        Ok(Tree { base, root, files, dirs })
+    }
+
+    fn lookup(&self, comps: &[String]) -> Node {
+        if self.dirs.contains(comps) {
+            return Node::Dir;
+        }
+        match self.files.iter().position(|f| f.inside && f.rel == comps) {
+            Some(i) => Node::File(i),
+            None => Node::Missing,
+        }
+    }
+
+    /// visible (non-hidden) children names of an in-root directory
+    fn children(&self, dir: &[String]) -> BTreeSet<String> {
+        let mut out = BTreeSet::new();
+        for f in self.files.iter().filter(|f| f.inside) {
+            if f.rel.len() > dir.len() && f.rel[..dir.len()] == *dir {
+                out.insert(f.rel[dir.len()].clone());
+            }
+        }
+        for d in &self.dirs {
+            if d.len() > dir.len() && d[..dir.len()] == *dir {
+                out.insert(d[dir.len()].clone());
+            }
+        }
+        out.into_iter().filter(|n| !n.starts_with('.')).collect()
+    }
+}
+
+impl Drop for Tree {
+    fn drop(&mut self) {
+        if self.base.file_name().map(|n| n.to_string_lossy().starts_with("avmon-c16-")).unwrap_or(false) {
+            let _ = std::fs::remove_dir_all(&self.base);
+        }
+    }
+}
+
+#[derive(Clone, Copy, Debug, PartialEq, Eq)]
+enum Node {
+    File(usize),
+    Dir,
+    Missing,
+}
+
+// ------------------------------------------------------------------------------------------------
+// The mounts and the path model
+// ------------------------------------------------------------------------------------------------
+
+struct Mount {
+    prefix: &'static str,
+    hidden: bool,
+    index: Option<&'static str>,
+    listing: bool,
+}
+
+/// in registration order; the root mount must be last (it shadows everything after it)
+const MOUNTS: &[Mount] = &[
+    Mount { prefix: "/static", hidden: false, index: None, listing: false },
+    Mount { prefix: "/hid", hidden: true, index: None, listing: false },
+    Mount { prefix: "/idx", hidden: false, index: Some("index.html"), listing: false },
+    Mount { prefix: "/list", hidden: false, index: None, listing: true },
+    Mount { prefix: "", hidden: false, index: None, listing: false },
+];
+
+async fn make_app(
+    root: PathBuf,
+) -> impl Service<Request, Response = ServiceResponse<BoxBody>, Error = actix_web::Error> {
+    test::init_service(
+        App::new()
+            .service(Files::new("/static", &root))
+            // every file below 100 000 bytes is read synchronously on this mount
+            .service(Files::new("/hid", &root).use_hidden_files().read_mode_threshold(100_000))
+            .service(Files::new("/idx", &root).index_file("index.html"))
+            .service(Files::new("/list", &root).show_files_listing())
+            .service(Files::new("/", &root)),
+    )
+    .await
+}
+
+fn hexval(b: u8) -> Option<u8> {
+    (b as char).to_digit(16).map(|d| d as u8)
+}
+
+/// What the application router does to the path before any service sees it: percent-decoding of
+/// everything except the escapes of `%`, `/` and `+`; the result read as UTF-8, lossily.
+fn router_decode(path: &[u8]) -> String {
+    let mut out = Vec::with_capacity(path.len());
+    let mut i = 0;
+    while i < path.len() {
+        if path[i] == b'%' && i + 2 < path.len() {
+            if let (Some(h), Some(l)) = (hexval(path[i + 1]), hexval(path[i + 2])) {
+                let ch = h << 4 | l;
+                if ch != b'%' && ch != b'/' && ch != b'+' {
+                    out.push(ch);
+                    i += 3;
+                    continue;
+                }
+            }
+        }
+        out.push(path[i]);
+        i += 1;
+    }
+    String::from_utf8_lossy(&out).into_owned()
+}
+
+/// What the file service does to its tail: decode every escape once; must be UTF-8.
+fn files_decode(tail: &str) -> Option<String> {
+    let b = tail.as_bytes();
+    let mut out = Vec::with_capacity(b.len());
+    let mut i = 0;
+    while i < b.len() {
+        if b[i] == b'%' && i + 2 < b.len() {
+            if let (Some(h), Some(l)) = (hexval(b[i + 1]), hexval(b[i + 2])) {
+                out.push(h << 4 | l);
+                i += 3;
+                continue;
+            }
+        }
+        out.push(b[i]);
+        i += 1;
+    }
+    String::from_utf8(out).ok()
+}
+
+#[derive(Clone, Debug, PartialEq, Eq)]
+enum Expect {
+    /// the path rules reject the request (traversal guard) — an error status
+    Reject(&'static str),
+    /// nothing there / not servable — an error status
+    Missing,
+    File(usize),
+    /// directory listing of this in-root directory
+    Listing(Vec<String>),
+}
+
+/// The path rules of DESIGN A.3, restated: which mount, and what the path denotes there.
+fn resolve(tree: &Tree, raw_path: &str) -> (usize, Expect) {
+    let raw = raw_path.split('?').next().unwrap_or("");
+    let p = router_decode(raw.as_bytes());
+    let (mi, tail) = MOUNTS
+        .iter()
+        .enumerate()
+        .find_map(|(i, m)| {
+            if m.prefix.is_empty() {
+                Some((i, p.as_str()))
+            } else if p == m.prefix {
+                Some((i, ""))
+            } else if p.starts_with(m.prefix) && p.as_bytes()[m.prefix.len()] == b'/' {
+                Some((i, &p[m.prefix.len()..]))
+            } else {
+                None
+            }
+        })
+        .unwrap();
+    let m = &MOUNTS[mi];
+    let dec = match files_decode(tail) {
+        Some(d) => d,
+        None => return (mi, Expect::Reject("not-utf8")),
+    };
+    if dec.matches('/').count() != tail.matches('/').count() {
+        return (mi, Expect::Reject("encoded-slash"));
+    }
+    let mut comps: Vec<String> = vec![];
+    for seg in dec.split('/') {
+        if seg == "." {
+            return (mi, Expect::Reject("dot"));
+        } else if seg == ".." {
+            comps.pop();
+        } else if seg.starts_with('.') && !m.hidden {
+            return (mi, Expect::Reject("hidden"));
+        } else if seg.starts_with('*') {
+            return (mi, Expect::Reject("star"));
+        } else if seg.ends_with(':') || seg.ends_with('<') || seg.ends_with('>') {
+            return (mi, Expect::Reject("bad-end"));
+        } else if seg.is_empty() {
+            continue;
+        } else {
+            comps.push(seg.to_string());
+        }
+    }
+    if comps.iter().any(|c| c.contains('\0')) {
+        return (mi, Expect::Missing);
+    }
+    let e = match tree.lookup(&comps) {
+        Node::File(i) => Expect::File(i),
+        Node::Missing => Expect::Missing,
+        Node::Dir => {
+            if let Some(ix) = m.index {
+                let mut c = comps.clone();
+                c.push(ix.to_string());
+                match tree.lookup(&c) {
+                    Node::File(i) => Expect::File(i),
+                    _ => Expect::Missing,
+                }
+            } else if m.listing {
+                Expect::Listing(comps)
+            } else {
+                Expect::Missing
+            }
+        }
+    };
+    (mi, e)
+}
+
+fn seg_class(tree: &Tree, seg: &str) -> &'static str {
+    let l = seg.to_ascii_lowercase();
+    if seg.is_empty() {
+        "E"
+    } else if seg == "." {
+        "dot"
+    } else if seg == ".." {
+        "dd"
+    } else if l.contains("%2f") {
+        "encslash"
+    } else if l.contains("%5c") || seg.contains('\\') {
+        "bslash"
+    } else if l.contains("%00") {
+        "nul"
+    } else if l.contains("%25") || l.contains("%%") {
+        "dblenc"
+    } else if l.contains("%2e") {
+        "encdot"
+    } else if seg == "CANARY.txt" {
+        "canary"
+    } else if seg == "rootx" {
+        "rootx"
+    } else if seg == "root" {
+        "rootname"
+    } else if seg.starts_with('.') {
+        "hidden"
+    } else if seg.starts_with('*') {
+        "star"
+    } else if seg.ends_with(':') || l.ends_with("%3c") || l.ends_with("%3e") || l.ends_with("%3a") {
+        "badend"
+    } else if !seg.is_ascii() || l.contains("%c3") || l.contains("%ff") {
+        "utf8"
+    } else if seg.contains('%') {
+        "pct"
+    } else if tree.dirs.iter().any(|d| d.last().map(|x| x == seg).unwrap_or(false)) {
+        "dir"
+    } else if tree.files.iter().any(|f| f.inside && f.rel.last().map(|x| x == seg).unwrap_or(false)) {
+        "file"
+    } else {
+        "other"
+    }
+}
+
+fn path_class(tree: &Tree, path: &str, mi: usize) -> String {
+    let tail = path.strip_prefix(MOUNTS[mi].prefix).unwrap_or(path);
+    let segs: Vec<&str> = tail.split('/').skip(1).collect();
+    let mut s = String::new();
+    for (i, g) in segs.iter().enumerate() {
+        if i >= 6 {
+            s.push_str("/…");
+            break;
+        }
+        s.push('/');
+        s.push_str(seg_class(tree, g));
+    }
+    s
+}
+
+// ------------------------------------------------------------------------------------------------
+// Cases, execution, observation
+// ------------------------------------------------------------------------------------------------
+
+#[derive(Clone, Debug)]
+struct Case {
+    path: String,
+    /// header values may contain `{ETAG}` (replaced by the target file's current entity-tag) and
+    /// chars ≤ U+00FF standing for single bytes (obs-text)
+    headers: Vec<(String, String)>,
+    /// abstract, seed-independent description of the conditional headers (signature material)
+    label: String,
+    phase: &'static str,
+}
+
+impl Case {
+    fn get(&self, name: &str) -> Option<&str> {
+        self.headers.iter().find(|(n, _)| n.eq_ignore_ascii_case(name)).map(|(_, v)| v.as_str())
+    }
+    fn replay(&self) -> Value {
+        json!({"path": self.path, "headers": self.headers, "label": self.label})
+    }
+}
+
+#[derive(Clone, Debug, Default)]
+struct Resp {
+    status: u16,
+    content_range: Vec<String>,
+    content_type: String,
+    etag: Option<String>,
+    last_modified: Option<String>,
+    accept_ranges: bool,
+    /// declared body size: Some(n) for a sized body, None for none/stream
+    size: Option<u64>,
+    size_kind: &'static str,
+    body_len: u64,
+    body_fnv: u64,
+    /// first bytes of the body (all of it when ≤ 8 KiB)
+    head: Vec<u8>,
+    whole: bool,
+    chunks: u64,
+    max_chunk: u64,
+    body_err: Option<String>,
+}
+
+#[derive(Clone, Debug)]
+enum Obs {
+    Resp(Resp),
+    Panic(String),
+    UriRejected,
+    HeaderRejected,
+    ServiceErr(u16),
+}
+
+fn latin1(s: &str) -> Vec<u8> {
+    if s.chars().all(|c| (c as u32) <= 0xff) {
+        s.chars().map(|c| c as u32 as u8).collect()
+    } else {
+        s.as_bytes().to_vec()
+    }
+}
+
+/// A future whose every poll runs under `report::guard`.
+struct GuardFut<F>(Pin<Box<F>>);
+
+impl<F: Future> Future for GuardFut<F> {
+    type Output = Result<F::Output, String>;
+    fn poll(mut self: Pin<&mut Self>, cx: &mut Context<'_>) -> Poll<Self::Output> {
+        let inner = &mut self.0;
+        match guard(|| inner.as_mut().poll(cx)) {
+            Ok(Poll::Ready(v)) => Poll::Ready(Ok(v)),
+            Ok(Poll::Pending) => Poll::Pending,
+            Err(m) => Poll::Ready(Err(m)),
+        }
+    }
+}
+
+const BODY_CAP: u64 = 8 << 20;
+
+async fn exec_one<S>(app: &S, path: &str, headers: &[(String, String)]) -> Obs
+where
+    S: Service<Request, Response = ServiceResponse<BoxBody>, Error = actix_web::Error>,
+{
+    let uri = match Uri::try_from(path) {
+        Ok(u) => u,
+        Err(_) => return Obs::UriRejected,
+    };
+    drop(uri);
+    let mut tr = test::TestRequest::get().uri(path);
+    for (n, v) in headers {
+        let name = match HeaderName::from_bytes(n.as_bytes()) {
+            Ok(n) => n,
+            Err(_) => return Obs::HeaderRejected,
+        };
+        let val = match HeaderValue::from_bytes(&latin1(v)) {
+            Ok(v) => v,
+            Err(_) => return Obs::HeaderRejected,
+        };
+        tr = tr.append_header((name, val));
+    }
+    let req = tr.to_request();
+    let sres = match app.call(req).await {
+        Ok(r) => r,
+        Err(e) => return Obs::ServiceErr(e.as_response_error().status_code().as_u16()),
+    };
+    let (_req, res) = sres.into_parts();
+    let mut r = Resp { status: res.status().as_u16(), ..Default::default() };
+    let h = res.headers();
+    r.content_range = h.get_all("content-range").map(|v| String::from_utf8_lossy(v.as_bytes()).into_owned()).collect();
+    r.content_type = h.get("content-type").map(|v| String::from_utf8_lossy(v.as_bytes()).into_owned()).unwrap_or_default();
+    r.etag = h.get("etag").map(|v| String::from_utf8_lossy(v.as_bytes()).into_owned());
+    r.last_modified = h.get("last-modified").map(|v| String::from_utf8_lossy(v.as_bytes()).into_owned());
+    r.accept_ranges = h.get("accept-ranges").map(|v| v.as_bytes() == b"bytes").unwrap_or(false);
+    let mut body = res.into_body();
+    match body.size() {
+        BodySize::None => r.size_kind = "none",
+        BodySize::Sized(n) => {
+            r.size_kind = "sized";
+            r.size = Some(n);
+        }
+        BodySize::Stream => r.size_kind = "stream",
+    }
+    let mut hash_buf: Vec<u8> = vec![];
+    let mut big = false;
+    loop {
+        let item = std::future::poll_fn(|cx| Pin::new(&mut body).poll_next(cx)).await;
+        match item {
+            None => break,
+            Some(Err(e)) => {
+                r.body_err = Some(e.to_string());
+                break;
+            }
+            Some(Ok(b)) => {
+                r.chunks += 1;
+                r.max_chunk = r.max_chunk.max(b.len() as u64);
+                r.body_len += b.len() as u64;
+                if !big {
+                    hash_buf.extend_from_slice(&b);
+                } else {
+                    // fold chunk hashes for bodies beyond the cap: only their length matters then
+                    r.body_fnv ^= fnv(&b);
+                }
+                if r.body_len > BODY_CAP {
+                    big = true;
+                }
+                if r.chunks > 4096 || r.body_len > 4 * BODY_CAP {
+                    r.body_err = Some("body exceeds every file in the tree (harness cap)".into());
+                    break;
+                }
+            }
+        }
+    }
+    if !big {
+        r.body_fnv = fnv(&hash_buf);
+    }
+    r.whole = hash_buf.len() <= 8192 && !big;
+    hash_buf.truncate(if r.whole { 8192 } else { 64 });
+    r.head = hash_buf;
+    Obs::Resp(r)
+}
+
+/// Run a batch of requests against one application instance (rebuilt after a panic).
+fn exec_batch(root: PathBuf, reqs: Vec<(String, Vec<(String, String)>)>, progress: Arc<AtomicU64>) -> Vec<Obs> {
+    run_virtual(async move {
+        let mut app = make_app(root.clone()).await;
+        let mut out = Vec::with_capacity(reqs.len());
+        for (path, headers) in &reqs {
+            let res = GuardFut(Box::pin(exec_one(&app, path, headers))).await;
+            let o = match res {
+                Ok(o) => o,
+                Err(msg) => {
+                    app = make_app(root.clone()).await;
+                    Obs::Panic(msg)
+                }
+            };
+            progress.fetch_add(1, SeqCst);
+            out.push(o);
+        }
+        out
+    })
+}
+
+// ------------------------------------------------------------------------------------------------
+// The oracle
+// ------------------------------------------------------------------------------------------------
+
+struct Viol {
+    class: &'static str,
+    sig: String,
+    detail: String,
+}
+
+struct World {
+    tree: Tree,
+    /// per in-root file: validators as a client sees them (baseline GET)
+    vals: BTreeMap<usize, (String, Validators)>,
+}
+
+impl World {
+    fn etag_of(&self, fi: usize) -> &str {
+        self.vals.get(&fi).map(|v| v.0.as_str()).unwrap_or("\"unknown\"")
+    }
+    /// substitute `{ETAG}` for the target of `case` (if it denotes a file)
+    fn materialize(&self, c: &Case) -> Vec<(String, String)> {
+        let target = match resolve(&self.tree, &c.path).1 {
+            Expect::File(i) => Some(i),
+            _ => None,
+        };
+        c.headers
+            .iter()
+            .map(|(n, v)| {
+                let v = if v.contains(ETAG) {
+                    v.replace(ETAG, target.map(|i| self.etag_of(i)).unwrap_or("\"no-target\""))
+                } else {
+                    v.clone()
+                };
+                (n.clone(), v)
+            })
+            .collect()
+    }
+}
+
+fn identify(tree: &Tree, r: &Resp, s: u64, e_incl: Option<u64>) -> String {
+    // which file's bytes [s..] does the body look like?
+    let mut hits = vec![];
+    for f in &tree.files {
+        let end = match e_incl {
+            Some(e) => e + 1,
+            None => f.content.len() as u64,
+        };
+        if end as usize <= f.content.len() && s <= end && end - s == r.body_len {
+            let sl = &f.content[s as usize..end as usize];
+            if fnv(sl) == r.body_fnv {
+                hits.push(format!("{}{} (id {:04x})", if f.inside { "root/" } else { "OUTSIDE:" }, f.rel.join("/"), f.id));
+            }
+        }
+    }
+    if hits.is_empty() {
+        format!("no file of the tree (body starts {:?}, {} bytes)", esc_short(&r.head, 48), r.body_len)
+    } else {
+        hits.join(" | ")
+    }
+}
+
+fn body_is(r: &Resp, want: &[u8]) -> bool {
+    r.body_len == want.len() as u64 && r.body_fnv == fnv(want) && (!r.whole || r.head == want)
+}
+
+fn listing_names(body: &str) -> Option<BTreeSet<String>> {
+    let mut out = BTreeSet::new();
+    let mut rest = body;
+    while let Some(i) = rest.find("<li><a href=\"") {
+        rest = &rest[i + 13..];
+        let j = rest.find("\">")?;
+        rest = &rest[j + 2..];
+        let k = rest.find("</a></li>")?;
+        out.insert(rest[..k].trim_end_matches('/').to_string());
+        rest = &rest[k..];
+    }
+    Some(out)
+}
+
+/// Judge one observed case.  Returns the outcome label (for signatures/counters) or a violation.
+fn judge(w: &World, c: &Case, headers: &[(String, String)], obs: &Obs, rep: &mut Reporter) -> Result<String, Viol> {
+    let tree = &w.tree;
+    let (mi, exp) = resolve(tree, &c.path);
+    let m = &MOUNTS[mi];
+    let pclass = path_class(tree, &c.path, mi);
+    let get = |name: &str| headers.iter().find(|(n, _)| n.eq_ignore_ascii_case(name)).map(|(_, v)| v.as_str());
+    let range_hdr = get("range");
+    let file_len = match exp {
+        Expect::File(i) => Some(tree.files[i].content.len() as u64),
+        _ => None,
+    };
+    let rv = file_len.map(|l| eval_range(range_hdr, l));
+    let base_sig = format!(
+        "mount={} path={} len={} range={} cond={}",
+        if m.prefix.is_empty() { "/" } else { m.prefix },
+        pclass,
+        file_len.map(|l| l.to_string()).unwrap_or_else(|| "-".into()),
+        rv.as_ref().map(|v| v.shape.clone()).unwrap_or_else(|| if range_hdr.is_some() { "n/a".into() } else { "absent".into() }),
+        c.label
+    );
+    let viol = |class: &'static str, detail: String| Viol { class, sig: base_sig.clone(), detail };
+
+    let r = match obs {
+        Obs::Panic(msg) => {
+            return Err(Viol {
+                class: "panic",
+                sig: panic_site(msg),
+                detail: format!("panic while serving GET {} {:?}: {msg}", c.path, headers),
+            })
+        }
+        Obs::UriRejected => {
+            rep.count("uri_rejected_by_http_crate", 1);
+            rep.count(if c.path.is_ascii() { "uri_rejected:ascii" } else { "uri_rejected:raw_non_ascii" }, 1);
+            return Ok("uri-rejected".into());
+        }
+        Obs::HeaderRejected => {
+            rep.count("header_value_rejected_by_http_crate", 1);
+            return Ok("header-rejected".into());
+        }
+        Obs::ServiceErr(st) => {
+            rep.count("service_err", 1);
+            if *st >= 400 && !matches!(exp, Expect::File(_) | Expect::Listing(_)) {
+                return Ok(format!("svc-err-{st}"));
+            }
+            return Err(viol("status", format!("service returned Err (status {st}) for {}; model expects {:?}", c.path, exp)));
+        }
+        Obs::Resp(r) => r,
+    };
+    rep.count(&format!("status:{}", r.status), 1);
+    if let Some(e) = &r.body_err {
+        return Err(viol(
+            "body-error",
+            format!(
+                "GET {} {:?}: status {} declared size {:?} but the body stream failed after {} bytes in {} chunks: {e}",
+                c.path, headers, r.status, r.size, r.body_len, r.chunks
+            ),
+        ));
+    }
+    if r.max_chunk > 65_536 {
+        rep.count("chunk_over_64k", 1);
+    }
+    rep.max("body_chunks", r.chunks);
+
+    // ---- directory listing
+    if let (Expect::Listing(dir), 200) = (&exp, r.status) {
+        let body = String::from_utf8_lossy(&r.head).into_owned();
+        if !r.whole || !r.content_type.starts_with("text/html") {
+            return Err(viol("resolve", format!("GET {}: expected a listing of root/{}, got a 200 of type {:?}: {}", c.path, dir.join("/"), r.content_type, identify(tree, r, 0, None))));
+        }
+        let names = listing_names(&body).unwrap_or_default();
+        let want = tree.children(dir);
+        if names != want {
+            let class = if names.iter().any(|n| n == "CANARY.txt" || n == "rootx" || n == "root") { "escape" } else { "resolve" };
+            return Err(viol(class, format!("GET {}: listing shows {:?}, directory root/{} has {:?}", c.path, names, dir.join("/"), want)));
+        }
+        rep.count("listing_checked", 1);
+        return Ok("listing".into());
+    }
+
+    // ---- error statuses
+    if r.status >= 400 && r.status != 412 && r.status != 416 {
+        // an obs-text Range value cannot be read as a string: 400 is a fair answer to it
+        let range_obs_text = range_hdr.map(|v| !latin1(v).iter().all(|&b| b == b'\t' || (32..127).contains(&b))).unwrap_or(false);
+        return match exp {
+            Expect::File(_) if r.status == 400 && range_obs_text => {
+                rep.count("tolerated:400_for_obs_text_range", 1);
+                Ok("file:400-obs-text".into())
+            }
+            Expect::File(i) => Err(viol(
+                "resolve-miss",
+                format!("GET {} denotes the in-root file {} but was answered {}", c.path, tree.files[i].rel.join("/"), r.status),
+            )),
+            Expect::Listing(d) => Err(viol("resolve-miss", format!("GET {} denotes the in-root directory {:?} on the listing mount but was answered {}", c.path, d, r.status))),
+            Expect::Reject(why) => {
+                rep.count(&format!("rejected:{why}"), 1);
+                if r.status >= 500 {
+                    rep.count("error_5xx", 1);
+                }
+                Ok(format!("reject-{why}-{}", r.status))
+            }
+            Expect::Missing => {
+                if r.status >= 500 {
+                    rep.count("error_5xx", 1);
+                }
+                Ok(format!("missing-{}", r.status))
+            }
+        };
+    }
+    if !matches!(r.status, 200 | 206 | 304 | 412 | 416) {
+        return Err(viol("status", format!("GET {} {:?}: status {} is outside 200/206/304/412/416/4xx/5xx", c.path, headers, r.status)));
+    }
+
+    // ---- from here on the response claims to be about a representation
+    let fi = match exp {
+        Expect::File(i) => i,
+        _ if !matches!(r.status, 200 | 206) => {
+            return Err(viol("status", format!("GET {} {:?}: model says {:?} (an error status), server answered {}", c.path, headers, exp, r.status)));
+        }
+        _ => {
+            // the model says there is nothing to serve: a content-bearing answer is an escape or a
+            // resolution difference, told apart by whose bytes came back
+            let (s, e) = match (r.status, r.content_range.first().and_then(|v| parse_content_range(v))) {
+                (206, Some(ContentRange::Range(s, e, _))) => (s, Some(e)),
+                _ => (0, None),
+            };
+            let who = identify(tree, r, s, e);
+            let class = if who.contains("root/") && !who.contains("OUTSIDE") { "resolve" } else { "escape" };
+            return Err(viol(class, format!("GET {} {:?}: model says {:?} (an error status), server answered {} with body of {}", c.path, headers, exp, r.status, who)));
+        }
+    };
+    let file = &tree.files[fi];
+    let len = file.content.len() as u64;
+    let rv = rv.unwrap();
+    let cond = CondHeaders {
+        if_match: get("if-match").map(String::from),
+        if_none_match: get("if-none-match").map(String::from),
+        if_unmodified_since: get("if-unmodified-since").map(String::from),
+        if_modified_since: get("if-modified-since").map(String::from),
+        if_range: get("if-range").map(String::from),
+    };
+    let vals = w.vals.get(&fi).map(|v| v.1.clone()).unwrap_or(Validators { etag: None, last_modified: None });
+    let cv = eval_cond(&cond, &vals);
+    for t in &cv.widened {
+        rep.count(&format!("cond_set_widened:{t}"), 1);
+    }
+    if let (Some(e), Some((base, _))) = (&r.etag, w.vals.get(&fi)) {
+        if e != base {
+            rep.count("etag_differs_from_baseline", 1);
+        }
+    }
+    let ctx_s = format!("GET {} {:?} (file {} len {len})", c.path, headers, file.rel.join("/"));
+
+    match r.status {
+        412 | 304 => {
+            let allowed = if r.status == 412 { cv.allow_412 } else { cv.allow_304 };
+            if !allowed {
+                return Err(viol("cond", format!("{ctx_s}: answered {} but RFC 7232 §6 evaluation yields {:?} (412 allowed: {}, 304 allowed: {})", r.status, cv.rfc, cv.allow_412, cv.allow_304)));
+            }
+            if r.body_len != 0 {
+                return Err(viol("cond-body", format!("{ctx_s}: {} with a {}-byte body", r.status, r.body_len)));
+            }
+            if cv.rfc != if r.status == 412 { "412" } else { "304" } {
+                rep.count(&format!("cond_deviation:rfc_{}_got_{}", cv.rfc, r.status), 1);
+            }
+            rep.count(&format!("cond:{}", r.status), 1);
+            Ok(format!("{}:rfc-{}", r.status, cv.rfc))
+        }
+        416 => {
+            match r.content_range.as_slice() {
+                [v] if parse_content_range(v) == Some(ContentRange::Unsatisfied(len)) => {}
+                other => return Err(viol("content-range", format!("{ctx_s}: 416 with Content-Range {:?}, expected \"bytes */{len}\"", other))),
+            }
+            if r.body_len != 0 {
+                return Err(viol("range-body", format!("{ctx_s}: 416 with a {}-byte body", r.body_len)));
+            }
+            let how = range_allows(&rv, &RangeAnswer::NotSatisfiable).map_err(|why| viol("range", format!("{ctx_s}: 416 — {why} (model: {:?} {:?})", rv.kind, rv.sat)))?;
+            rep.count(&format!("range:{how}"), 1);
+            if cv.rfc != "normal" {
+                // precedence: RFC evaluates preconditions first; a 416 here is still inside the property's set
+                rep.count("tolerated:416_before_precondition", 1);
+            }
+            if cv.if_range_matches == Some(false) {
+                rep.count("if_range:mismatch_range_still_evaluated", 1);
+            }
+            Ok(format!("416:{how}:rfc-{}", cv.rfc))
+        }
+        200 => {
+            if !cv.allow_normal {
+                return Err(viol("cond", format!("{ctx_s}: answered 200 but RFC 7232 §6 evaluation yields {:?}", cv.rfc)));
+            }
+            if !r.content_range.is_empty() {
+                return Err(viol("content-range", format!("{ctx_s}: 200 carrying Content-Range {:?}", r.content_range)));
+            }
+            if !body_is(r, &file.content) {
+                let who = identify(tree, r, 0, None);
+                let class = if who.contains("OUTSIDE") { "escape" } else if who.contains("root/") { "resolve" } else { "body" };
+                return Err(viol(class, format!("{ctx_s}: 200 whose body is not the file: {} bytes, looks like {who}", r.body_len)));
+            }
+            if r.size != Some(len) {
+                return Err(viol("length", format!("{ctx_s}: 200 declares body size {:?} ({}), file has {len}", r.size, r.size_kind)));
+            }
+            let how = if cv.if_range_matches == Some(false) && range_hdr.is_some() {
+                rep.count("if_range:mismatch_range_ignored", 1);
+                "if-range-mismatch:200"
+            } else {
+                range_allows(&rv, &RangeAnswer::Full).map_err(|why| viol("range", format!("{ctx_s}: 200 — {why} (model: {:?} {:?})", rv.kind, rv.sat)))?
+            };
+            rep.count(&format!("range:{how}"), 1);
+            if cv.rfc != "normal" {
+                rep.count(&format!("cond_deviation:rfc_{}_got_200", cv.rfc), 1);
+            }
+            if !r.accept_ranges {
+                rep.count("200_without_accept_ranges", 1);
+            }
+            Ok(format!("200:{how}:rfc-{}", cv.rfc))
+        }
+        206 => {
+            if !cv.allow_normal {
+                return Err(viol("cond", format!("{ctx_s}: answered 206 but RFC 7232 §6 evaluation yields {:?}", cv.rfc)));
+            }
+            let (s, e, total) = match r.content_range.as_slice() {
+                [v] => match parse_content_range(v) {
+                    Some(ContentRange::Range(s, e, t)) => (s, e, t),
+                    _ => return Err(viol("content-range", format!("{ctx_s}: 206 with malformed Content-Range {:?}", v))),
+                },
+                other => return Err(viol("content-range", format!("{ctx_s}: 206 with {} Content-Range headers {:?}", other.len(), other))),
+            };
+            if !(s <= e && e < total && total == len) {
+                return Err(viol("content-range", format!("{ctx_s}: 206 with impossible Content-Range \"bytes {s}-{e}/{total}\" for a {len}-byte file")));
+            }
+            let how = range_allows(&rv, &RangeAnswer::Partial(s, e)).map_err(|why| viol("range", format!("{ctx_s}: 206 bytes {s}-{e}/{total} — {why} (model: {:?} {:?})", rv.kind, rv.sat)))?;
+            if !body_is(r, &file.content[s as usize..=e as usize]) {
+                let who = identify(tree, r, s, Some(e));
+                let class = if who.contains("OUTSIDE") && !who.contains("root/") { "escape" } else { "range-body" };
+                return Err(viol(class, format!("{ctx_s}: 206 bytes {s}-{e}/{total} but the body ({} bytes, starts {:?}) is not that slice of the file; looks like {who}", r.body_len, esc_short(&r.head, 40))));
+            }
+            if r.size != Some(e - s + 1) {
+                return Err(viol("length", format!("{ctx_s}: 206 bytes {s}-{e}/{total} declares body size {:?} ({}), expected {}", r.size, r.size_kind, e - s + 1)));
+            }
+            rep.count(&format!("range:{how}"), 1);
+            if let Kind::Ignored(why) = &rv.kind {
+                rep.count(&format!("range_invalid_but_served_206:{why:?}"), 1);
+                rep.sample("invalid-range-served-206", json!({"range": range_hdr, "len": len, "content_range": r.content_range}));
+            }
+            match cv.if_range_matches {
+                Some(false) => rep.count("if_range:mismatch_range_still_served_206", 1),
+                Some(true) => rep.count("if_range:match_206", 1),
+                None => {}
+            }
+            if cv.rfc != "normal" {
+                rep.count(&format!("cond_deviation:rfc_{}_got_206", cv.rfc), 1);
+            }
+            Ok(format!("206:{how}:rfc-{}", cv.rfc))
+        }
+        _ => unreachable!(),
+    }
+}
+
+// ------------------------------------------------------------------------------------------------
+// Workloads
+// ------------------------------------------------------------------------------------------------
+
+/// segment alphabet of the path enumeration
+const SEGS: &[&str] = &[
+    // names
+    "a.txt", "sub", "deep", "b.txt", "index.html", "c.txt", "emptydir",
+    // dot segments, plain and encoded
+    ".", "..", "%2e", "%2E%2e", ".%2e", "...", "%2e%2e%2f", "%252e%252e", "%%32e%%32e",
+    // separators
+    "%2f", "..%2f", "%2F..", "%%32f", "%5c", "..%5c..", "\\", "..\\", "x%5cy.txt",
+    // empty, NUL, UTF-8, broken escapes
+    "", "%00", "a.txt%00", "\u{fc}n\u{ef}", "%C3%BCn%C3%AF", "%c3%a9.txt", "%ff", "%", "%2", "%zz",
+    // hidden
+    ".hidden", ".hid", "x.txt",
+    // what lies outside
+    "rootx", "CANARY.txt", "root",
+    // reserved starts/ends
+    "*", "*a", "a:", "a%3C", "a%3E", "sp%20ace.txt",
+];
+
+/// the core of the alphabet (deeper exhaustive levels)
+const SEGS_CORE: &[&str] = &["a.txt", "sub", "deep", "b.txt", "..", "%2e%2e", ".", "", "%2f", "%5c", ".hid", "rootx", "CANARY.txt", "x.txt", "..%2f", "%00"];
+const SEGS_MIN: &[&str] = &["a.txt", "sub", "b.txt", "..", "%2E%2e", "", "rootx", "CANARY.txt"];
+
+fn nums_for(len: u64) -> Vec<String> {
+    let mut v: Vec<u128> = vec![0, 1, 2, 65_535, 65_536, 65_537, 131_071, 131_072, 131_073, 1 << 31, 1 << 32, (1 << 63) - 1, 1 << 63, u64::MAX as u128 - 1, u64::MAX as u128, 1 << 64];
+    for d in [-2i128, -1, 0, 1] {
+        let x = len as i128 + d;
+        if x >= 0 {
+            v.push(x as u128);
+        }
+    }
+    v.sort_unstable();
+    v.dedup();
+    let mut out: Vec<String> = v.iter().map(|x| x.to_string()).collect();
+    out.push("99999999999999999999999999".into());
+    out.push("00000000000000000000005".into());
+    out
+}
+
+fn range_headers(len: u64) -> Vec<String> {
+    let nums = nums_for(len);
+    let mut out = vec![];
+    for a in &nums {
+        for b in &nums {
+            out.push(format!("bytes={a}-{b}"));
+        }
+        out.push(format!("bytes={a}-"));
+        out.push(format!("bytes=-{a}"));
+    }
+    for s in ["bytes= 0-4", "bytes=0-4 ", "bytes=0 - 4", "bytes=\t0-4", "Bytes=0-4", "BYTES=-1", "bytes=- 1", "bytes= -1", "bytes=0- "] {
+        out.push(s.to_string());
+    }
+    let l = len.to_string();
+    let lm1 = len.saturating_sub(1).to_string();
+    let specs: Vec<String> = vec!["0-0".into(), "-1".into(), "1-".into(), format!("{l}-"), format!("0-{l}"), format!("{lm1}-{lm1}"), "-0".into(), "5-4".into(), "abc".into(), "".into(), "18446744073709551616-".into()];
+    for a in &specs {
+        for b in &specs {
+            out.push(format!("bytes={a},{b}"));
+            out.push(format!("bytes={a}, {b}"));
+        }
+    }
+    out.push(format!("bytes={l}-,{l}-,0-0"));
+    out.push("bytes=0-0,1-1,2-2,3-3".to_string());
+    out.push(format!("bytes={}0-0", "0-0,".repeat(200)));
+    out.push(format!("bytes=0-{}", "9".repeat(400)));
+    out.push(format!("bytes=-{}", "9".repeat(400)));
+    for s in [
+        "", "bytes", "bytes=", "bytes=,", "bytes= , ,", "bytes=-", "bytes=--5", "bytes=5--", "bytes=a-b", "bytes=0-5;q=1", "bytes=0x10-0x20", "bytes=+1-+5", "bytes=1.5-2",
+        "items=0-5", "bytes 0-5", "bytes:0-5", "=0-5", "bytes==0-5", "bytes=0-5-6", "bytes=0-\u{e9}", "none", "bytes=-1-", "bytes=1-2-", "bytes=0–5", "bytes=٠-٥",
+    ] {
+        out.push(s.to_string());
+    }
+    out
+}
+
+fn tag_opts() -> Vec<(&'static str, Option<String>)> {
+    vec![
+        ("none", None),
+        ("any", Some("*".into())),
+        ("exact", Some(ETAG.into())),
+        ("weak", Some(format!("W/{ETAG}"))),
+        ("other", Some("\"nope\"".into())),
+        ("list", Some(format!("\"x\", {ETAG}"))),
+        ("garbage", Some("nope-unquoted".into())),
+    ]
+}
+
+fn date_opts() -> Vec<(&'static str, Option<String>)> {
+    vec![
+        ("none", None),
+        ("lm-1", Some(fmt_http_date(MTIME - 1, DateFmt::Imf))),
+        ("lm", Some(fmt_http_date(MTIME, DateFmt::Imf))),
+        ("lm+1", Some(fmt_http_date(MTIME + 1, DateFmt::Imf))),
+        ("lm-rfc850", Some(fmt_http_date(MTIME, DateFmt::Rfc850))),
+        ("lm-1-asctime", Some(fmt_http_date(MTIME - 1, DateFmt::Asctime))),
+        ("garbage", Some("yesterday".into())),
+    ]
+}
+
+fn if_range_opts() -> Vec<(&'static str, Option<String>)> {
+    vec![
+        ("none", None),
+        ("etag", Some(ETAG.into())),
+        ("other", Some("\"nope\"".into())),
+        ("lm", Some(fmt_http_date(MTIME, DateFmt::Imf))),
+        ("lm-1", Some(fmt_http_date(MTIME - 1, DateFmt::Imf))),
+    ]
+}
+
+fn file_path(mount: &str, rel: &str) -> String {
+    format!("{mount}/{rel}")
+}
+
+fn random_range(rng: &mut Rng, len: u64) -> String {
+    let num = |rng: &mut Rng| -> String {
+        match rng.below(10) {
+            0 => "0".into(),
+            1 => len.saturating_sub(1).to_string(),
+            2 => len.to_string(),
+            3 => (len + 1 + rng.below(5) as u64).to_string(),
+            4 => [65_535u64, 65_536, 65_537, 131_072][rng.below(4)].to_string(),
+            5 => ["9223372036854775807", "9223372036854775808", "18446744073709551615", "18446744073709551616", "340282366920938463463374607431768211456"][rng.below(5)].into(),
+            6 => format!("{:03}", rng.below(1000)),
+            _ => (rng.next() % (len + 2)).to_string(),
+        }
+    };
+    let n = if rng.chance(7, 10) { 1 } else { rng.range(2, 4) };
+    let mut specs = vec![];
+    for _ in 0..n {
+        let s = match rng.below(12) {
+            0..=4 => {
+                let a = num(rng);
+                let b = num(rng);
+                format!("{a}-{b}")
+            }
+            5 | 6 => format!("{}-", num(rng)),
+            7 | 8 => format!("-{}", num(rng)),
+            9 => {
+                // ordered pair inside the file
+                let a = rng.next() % (len + 1);
+                let b = a + rng.next() % (len + 1 - a.min(len));
+                format!("{a}-{b}")
+            }
+            10 => "".into(),
+            _ => ["x", "1-2-3", "--1", "1", "-", "0-a", "0x1-2"][rng.below(7)].into(),
+        };
+        specs.push(s);
+    }
+    let sep = *rng.pick(&[",", ", ", " ,", ",,", " , "]);
+    let unit = if rng.chance(1, 25) { *rng.pick(&["Bytes", "BYTES", "items", "bytes "]) } else { "bytes" };
+    let lead = if rng.chance(1, 20) { " " } else { "" };
+    format!("{unit}={lead}{}", specs.join(sep))
+}
+
+fn random_case(w: &World, rng: &mut Rng) -> Case {
+    let tree = &w.tree;
+    let mount = MOUNTS[rng.below(MOUNTS.len())].prefix;
+    let mut headers = vec![];
+    let mut label = String::from("-");
+    let path;
+    if rng.chance(1, 2) {
+        // a decorated path to a real file (so that the header clauses are reached through odd paths)
+        let inside: Vec<&FileEnt> = tree.files.iter().filter(|f| f.inside && f.rel.iter().all(|c| c.is_ascii() && !c.contains('\\') && !c.contains(' '))).collect();
+        let f = inside[rng.below(inside.len())];
+        let mut segs: Vec<String> = vec![];
+        for c in &f.rel {
+            match rng.below(8) {
+                0 => {
+                    segs.push("sub".into());
+                    segs.push("..".into());
+                }
+                1 => segs.push("".into()),
+                2 => {
+                    segs.push("zz".into());
+                    segs.push("%2e%2E".into());
+                }
+                3 => {
+                    segs.push("..".into());
+                }
+                _ => {}
+            }
+            if rng.chance(1, 6) {
+                // percent-encode the first character of the component
+                let b = c.as_bytes()[0];
+                segs.push(format!("%{:02x}{}", b, &c[1..]));
+            } else {
+                segs.push(c.clone());
+            }
+        }
+        path = format!("{mount}/{}", segs.join("/"));
+        let len = f.content.len() as u64;
+        if rng.chance(3, 4) {
+            headers.push(("Range".to_string(), random_range(rng, len)));
+        }
+        if rng.chance(1, 2) {
+            let tags = tag_opts();
+            let dates = date_opts();
+            let irs = if_range_opts();
+            let mut l = vec![];
+            for (name, opts) in [("If-Match", &tags), ("If-None-Match", &tags), ("If-Unmodified-Since", &dates), ("If-Modified-Since", &dates), ("If-Range", &irs)] {
+                if rng.chance(1, 3) {
+                    let (lab, v) = &opts[rng.range(1, opts.len() - 1)];
+                    headers.push((name.to_string(), v.clone().unwrap()));
+                    l.push(format!("{name}={lab}"));
+                }
+            }
+            if !l.is_empty() {
+                label = l.join(",");
+            }
+        }
+    } else {
+        let depth = rng.range(1, 5);
+        let segs: Vec<&str> = (0..depth).map(|_| *rng.pick(SEGS)).collect();
+        path = format!("{mount}/{}", segs.join("/"));
+        if rng.chance(1, 4) {
+            headers.push(("Range".to_string(), random_range(rng, 10)));
+        }
+    }
+    Case { path, headers, label, phase: "random" }
+}
+
+// ------------------------------------------------------------------------------------------------
+// run
+// ------------------------------------------------------------------------------------------------
+
+struct Runner<'a> {
+    ctx: &'a Ctx,
+    w: World,
+    batch: Vec<Case>,
+    progress: Arc<AtomicU64>,
+    slow_batches: u64,
+}
+
+impl<'a> Runner<'a> {
+    fn push(&mut self, c: Case, rep: &mut Reporter) {
+        self.batch.push(c);
+        if self.batch.len() >= 1024 {
+            self.flush(rep);
+        }
+    }
+
+    fn flush(&mut self, rep: &mut Reporter) {
+        if self.batch.is_empty() {
+            return;
+        }
+        let cases = std::mem::take(&mut self.batch);
+        let reqs: Vec<(String, Vec<(String, String)>)> = cases.iter().map(|c| (c.path.clone(), self.w.materialize(c))).collect();
+        let t0 = Instant::now();
+        let root = self.w.tree.root.clone();
+        let progress = self.progress.clone();
+        let reqs2 = reqs.clone();
+        let obs = match guard(move || exec_batch(root, reqs2, progress)) {
+            Ok(o) => o,
+            Err(msg) => {
+                // a panic outside any request (application construction): nothing was observed
+                rep.inconclusive(&format!("harness/app construction panicked: {msg}"));
+                return;
+            }
+        };
+        if t0.elapsed() > Duration::from_secs(60) {
+            self.slow_batches += 1;
+        }
+        for ((c, (_, headers)), o) in cases.iter().zip(reqs.iter()).zip(obs.iter()) {
+            rep.eval();
+            rep.count(&format!("phase:{}", c.phase), 1);
+            match judge(&self.w, c, headers, o, rep) {
+                Ok(outcome) => {
+                    if outcome != "uri-rejected" && outcome != "header-rejected" {
+                        let (mi, _) = resolve(&self.w.tree, &c.path);
+                        let mut classes: Vec<&str> = path_class(&self.w.tree, &c.path, mi).split('/').filter(|s| !s.is_empty()).map(|s| seg_class_static(s)).collect();
+                        classes.sort_unstable();
+                        classes.dedup();
+                        let rshape = match (c.get("range"), resolve(&self.w.tree, &c.path).1) {
+                            (Some(h), Expect::File(i)) => {
+                                let l = self.w.tree.files[i].content.len() as u64;
+                                format!("{}@{}", eval_range(Some(h), l).shape, len_class(l))
+                            }
+                            (Some(_), _) => "range-on-nonfile".into(),
+                            (None, _) => "-".into(),
+                        };
+                        // conditional headers enter the signature by which are present (their values
+                        // show through the outcome), so the grid counts as diversity, not volume
+                        let present: Vec<&str> = c.label.split(',').filter(|kv| !kv.ends_with("=none") && *kv != "-").map(|kv| kv.split('=').next().unwrap_or("")).collect();
+                        rep.sig(&format!("{}|{}|{}|{}|{}", MOUNTS[mi].prefix, classes.join("+"), rshape, present.join("+"), outcome));
+                    }
+                }
+                Err(v) => {
+                    rep.violation(v.class, &v.sig, &v.detail, c.replay());
+                }
+            }
+        }
+    }
+}
+
+fn seg_class_static(s: &str) -> &'static str {
+    for k in ["E", "dot", "dd", "encslash", "bslash", "nul", "dblenc", "encdot", "canary", "rootx", "rootname", "hidden", "star", "badend", "utf8", "pct", "dir", "file", "other", "…"] {
+        if k == s {
+            return k;
+        }
+    }
+    "other"
+}
+
+fn len_class(l: u64) -> &'static str {
+    match l {
+        0 => "L0",
+        1 => "L1",
+        2..=65_535 => "Lsmall",
+        65_536 => "L64k",
+        65_537 => "L64k+1",
+        _ => "Lmulti",
+    }
+}
+
+fn baseline(w: &mut World, rep: &mut Reporter, progress: Arc<AtomicU64>) -> bool {
+    let idx: Vec<usize> = w.tree.files.iter().enumerate().filter(|(_, f)| f.inside).map(|(i, _)| i).collect();
+    let reqs: Vec<(String, Vec<(String, String)>)> = idx
+        .iter()
+        .map(|&i| {
+            let rel: Vec<String> = w.tree.files[i].rel.iter().map(|c| pct_encode(c)).collect();
+            (format!("/hid/{}", rel.join("/")), vec![])
+        })
+        .collect();
+    let root = w.tree.root.clone();
+    let r2 = reqs.clone();
+    let obs = match guard(move || exec_batch(root, r2, progress)) {
+        Ok(o) => o,
+        Err(m) => {
+            rep.inconclusive(&format!("baseline requests panicked: {m}"));
+            return false;
+        }
+    };
+    for ((&i, (path, _)), o) in idx.iter().zip(reqs.iter()).zip(obs.iter()) {
+        let f = &w.tree.files[i];
+        match o {
+            Obs::Resp(r) if r.status == 200 && body_is(r, &f.content) => {
+                let etag = r.etag.clone().unwrap_or_default();
+                let lm = r.last_modified.as_deref().and_then(parse_http_date);
+                if lm != Some(MTIME) {
+                    rep.count("last_modified_differs_from_mtime", 1);
+                }
+                let v = Validators { etag: ETag::parse(&etag), last_modified: lm };
+                if v.etag.is_none() || v.last_modified.is_none() {
+                    rep.inconclusive(&format!("baseline GET {path}: no usable validators (ETag {:?}, Last-Modified {:?})", r.etag, r.last_modified));
+                    return false;
+                }
+                w.vals.insert(i, (etag, v));
+            }
+            other => {
+                // the plain unconditional GET of a plain file is the floor everything else stands
+                // on: judge it like any other case, then stop
+                let c = Case { path: path.clone(), headers: vec![], label: "-".into(), phase: "baseline" };
+                rep.eval();
+                match judge(w, &c, &[], other, rep) {
+                    Err(v) => rep.violation(v.class, &v.sig, &format!("baseline: {}", v.detail), c.replay()),
+                    Ok(_) => rep.inconclusive(&format!("baseline GET {path} gave no usable answer: {}", short_obs(other))),
+                }
+                return false;
+            }
+        }
+    }
+    true
+}
+
+fn short_obs(o: &Obs) -> String {
+    match o {
+        Obs::Resp(r) => format!("status {} size {:?} body {} bytes {:?} err {:?}", r.status, r.size, r.body_len, esc_short(&r.head, 32), r.body_err),
+        other => format!("{other:?}"),
+    }
+}
+
+fn pct_encode(c: &str) -> String {
+    let mut s = String::new();
+    for &b in c.as_bytes() {
+        if b.is_ascii_alphanumeric() || b == b'.' || b == b'-' || b == b'_' {
+            s.push(b as char);
+        } else {
+            s.push_str(&format!("%{:02X}", b));
+        }
+    }
+    s
+}
+
+pub fn run(ctx: &Ctx, rep: &mut Reporter) {
+    let tree = match Tree::create(ctx) {
+        Ok(t) => t,
+        Err(e) => {
+            rep.inconclusive(&format!("cannot create the temp tree: {e}"));
+            return;
+        }
+    };
+    let progress = Arc::new(AtomicU64::new(0));
+    let finished = Arc::new(AtomicBool::new(false));
+    // wall watchdog: file reads go through a real blocking pool; a request that never completes
+    // must not look like a pass
+    {
+        let (p, f, base) = (progress.clone(), finished.clone(), tree.base.clone());
+        std::thread::spawn(move || {
+            let mut last = (p.load(SeqCst), Instant::now());
+            loop {
+                std::thread::sleep(Duration::from_millis(500));
+                if f.load(SeqCst) {
+                    return;
+                }
+                let now = p.load(SeqCst);
+                if now != last.0 {
+                    last = (now, Instant::now());
+                } else if last.1.elapsed() > Duration::from_secs(120) {
+                    eprintln!("C16 watchdog: no request completed for 120 s (after {now} requests) — giving up, inconclusive");
+                    let _ = std::fs::remove_dir_all(&base);
+                    std::process::exit(3);
+                }
+            }
+        });
+    }
+    let mut w = World { tree, vals: BTreeMap::new() };
+    let ok = baseline(&mut w, rep, progress.clone());
+    let mut rn = Runner { ctx, w, batch: vec![], progress, slow_batches: 0 };
+    if ok {
+        if let Some(rp) = &ctx.replay {
+            run_replay(&mut rn, rp, rep);
+        } else {
+            run_phases(&mut rn, rep);
+        }
+    }
+    if rn.slow_batches > 0 {
+        rep.inconclusive(&format!("{} batches of 1024 requests took more than 60 s wall", rn.slow_batches));
+    }
+    finished.store(true, SeqCst);
+}
+
+fn run_replay(rn: &mut Runner<'_>, rp: &Value, rep: &mut Reporter) {
+    let headers: Vec<(String, String)> = rp["headers"]
+        .as_array()
+        .map(|a| a.iter().filter_map(|p| Some((p.get(0)?.as_str()?.to_string(), p.get(1)?.as_str()?.to_string()))).collect())
+        .unwrap_or_default();
+    let c = Case {
+        path: rp["path"].as_str().unwrap_or("/").to_string(),
+        headers,
+        label: rp["label"].as_str().unwrap_or("-").to_string(),
+        phase: "replay",
+    };
+    rn.push(c, rep);
+    rn.flush(rep);
+    rep.sig("replay-a");
+    rep.sig("replay-b");
+}
+
+fn run_phases(rn: &mut Runner<'_>, rep: &mut Reporter) {
+    let ctx = rn.ctx;
+    let mut idx = 0u64;
+
+    // ---- Phase A: path enumeration, no headers
+    // (alphabet, depth, mounts) levels; every sequence of exactly that length
+    let all_mounts: Vec<usize> = (0..MOUNTS.len()).collect();
+    let mut levels: Vec<(&[&str], usize, Vec<usize>)> = vec![
+        (SEGS, 1, all_mounts.clone()),
+        (SEGS, 2, all_mounts.clone()),
+        (SEGS, 3, if ctx.thorough() { all_mounts.clone() } else { vec![0, 1] }),
+        (SEGS_CORE, 4, if ctx.thorough() { all_mounts.clone() } else { vec![0, 4] }),
+        (SEGS_MIN, 5, all_mounts.clone()),
+    ];
+    if ctx.thorough() {
+        levels.push((SEGS, 4, vec![0, 1]));
+        levels.push((SEGS_CORE, 5, vec![1, 3]));
+    }
+    let mut complete = true;
+    'a: for (alpha, depth, mounts) in &levels {
+        let a = alpha.len() as u64;
+        let total = a.pow(*depth as u32);
+        for &mi in mounts {
+            for code in 0..total {
+                idx += 1;
+                if !ctx.mine(idx) {
+                    continue;
+                }
+                if idx % 4096 < ctx.nshards && ctx.out_of_time() {
+                    complete = false;
+                    break 'a;
+                }
+                let mut c = code;
+                let mut segs = Vec::with_capacity(*depth);
+                for _ in 0..*depth {
+                    segs.push(alpha[(c % a) as usize]);
+                    c /= a;
+                }
+                let path = format!("{}/{}", MOUNTS[mi].prefix, segs.join("/"));
+                if code == 1234 && mi == 0 {
+                    rep.sample("path-case", json!({"path": path}));
+                }
+                rn.push(Case { path, headers: vec![], label: "-".into(), phase: "paths" }, rep);
+            }
+        }
+    }
+    rn.flush(rep);
+    rep.exhaustive(
+        &format!(
+            "all segment sequences: depth<=3 over {} segments, depth 4 over {} ({}), depth 5 over {} ({})",
+            SEGS.len(),
+            if ctx.thorough() { SEGS.len() } else { SEGS_CORE.len() },
+            if ctx.thorough() { "two mounts; 16 on all" } else { "two mounts" },
+            if ctx.thorough() { SEGS_CORE.len() } else { SEGS_MIN.len() },
+            if ctx.thorough() { "two mounts; 8 on all" } else { "all mounts" }
+        ),
+        complete,
+    );
+    rep.max("path_alphabet", SEGS.len() as u64);
+
+    // ---- Phase B: Range shapes × file lengths × read modes
+    let len_files = ["empty.bin", "one.bin", "a.txt", "k64.bin", "k64p1.bin", "big.bin"];
+    let mut complete = true;
+    'b: for rel in len_files {
+        let len = INSIDE.iter().find(|f| f.0 == rel).unwrap().2 as u64;
+        let hs = range_headers(len);
+        for mount in ["/static", "/hid"] {
+            for h in &hs {
+                idx += 1;
+                if !ctx.mine(idx) {
+                    continue;
+                }
+                if idx % 512 < ctx.nshards && ctx.out_of_time() {
+                    complete = false;
+                    break 'b;
+                }
+                if h == "bytes=2-5" || h == "bytes=-1" {
+                    rep.sample("range-case", json!({"path": file_path(mount, rel), "range": h, "len": len}));
+                }
+                rn.push(Case { path: file_path(mount, rel), headers: vec![("Range".into(), h.clone())], label: "-".into(), phase: "range-grid" }, rep);
+            }
+        }
+    }
+    rn.flush(rep);
+    rep.exhaustive("range grid: (first,last)/(first,)/(,suffix) over boundary numbers incl. 2^63, 2^64-1, 2^64, spec pairs, garbage x lengths {0,1,10,65536,65537,200000} x {async,sync} reads", complete);
+
+    // ---- Phase C: conditional header grid
+    let cond_files: &[(&str, &str)] = if ctx.thorough() { &[("/static", "a.txt"), ("/hid", "empty.bin"), ("/static", "k64p1.bin")] } else { &[("/static", "a.txt")] };
+    let tags = tag_opts();
+    let dates = date_opts();
+    let irs = if_range_opts();
+    let mut complete = true;
+    'c: for (mount, rel) in cond_files {
+        let len = INSIDE.iter().find(|f| f.0 == *rel).unwrap().2 as u64;
+        let ranges: Vec<(&str, Option<String>)> = vec![("none", None), ("sat", Some("bytes=2-5".into())), ("unsat", Some(format!("bytes={}-", len + 5))), ("suffix", Some("bytes=-3".into()))];
+        for (lim, im) in &tags {
+            for (linm, inm) in &tags {
+                for (lius, ius) in &dates {
+                    for (lims, ims) in &dates {
+                        for (lr, rg) in &ranges {
+                            for (lir, ir) in &irs {
+                                idx += 1;
+                                if !ctx.mine(idx) {
+                                    continue;
+                                }
+                                if idx % 512 < ctx.nshards && ctx.out_of_time() {
+                                    complete = false;
+                                    break 'c;
+                                }
+                                let mut headers = vec![];
+                                for (n, v) in [("If-Match", im), ("If-None-Match", inm), ("If-Unmodified-Since", ius), ("If-Modified-Since", ims), ("Range", rg), ("If-Range", ir)] {
+                                    if let Some(v) = v {
+                                        headers.push((n.to_string(), v.clone()));
+                                    }
+                                }
+                                let label = format!("im={lim},inm={linm},ius={lius},ims={lims},r={lr},ir={lir}");
+                                if label == "im=exact,inm=other,ius=lm,ims=lm-1,r=sat,ir=etag" {
+                                    rep.sample("cond-case", json!({"path": file_path(mount, rel), "headers": headers}));
+                                }
+                                rn.push(Case { path: file_path(mount, rel), headers, label, phase: "cond-grid" }, rep);
+                            }
+                        }
+                    }
+                }
+            }
+        }
+    }
+    rn.flush(rep);
+    rep.exhaustive("conditional grid: 7 If-Match x 7 If-None-Match x 7 If-Unmodified-Since x 7 If-Modified-Since x 4 Range x 5 If-Range", complete);
+
+    // ---- Phase D: random paths × ranges × conditionals
+    let n = ctx.share(160_000, 1_600_000);
+    for k in 0..n {
+        if k % 256 == 0 && ctx.out_of_time() {
+            break;
+        }
+        let mut rng = Rng::derive(ctx.seed, 16, k * ctx.nshards + ctx.shard);
+        let c = random_case(&rn.w, &mut rng);
+        if k == 0 {
+            rep.sample("random-case", c.replay());
+        }
+        rn.push(c, rep);
+    }
+    rn.flush(rep);
 }
